@@ -247,27 +247,28 @@ impl ToTokens for TraitVisibility<'_> {
                     // A visibility relative to where the attribute is written
                     // is one `super` further away from inside the module:
                     syn::Visibility::Restricted(restricted)
-                        if restricted.path.is_ident("self")
-                            || restricted.path.is_ident("super")
-                            || restricted
-                                .path
-                                .segments
-                                .first()
-                                .map(|segment| segment.ident == "super")
-                                .unwrap_or(false) =>
+                        if restricted
+                            .path
+                            .segments
+                            .first()
+                            .map(|segment| segment.ident == "super" || segment.ident == "self")
+                            .unwrap_or(false) =>
                     {
+                        // (`self`, `super::..`, `self::super::..`)
+                        let rest = restricted
+                            .path
+                            .segments
+                            .iter()
+                            .skip_while(|segment| segment.ident == "self");
                         push_tokens!(stream, restricted.pub_token);
                         restricted.paren_token.surround(stream, |stream| {
-                            push_tokens!(stream, syn::token::In::default());
-                            if restricted.path.is_ident("self") {
-                                push_tokens!(stream, syn::token::Super::default());
-                            } else {
-                                push_tokens!(
-                                    stream,
-                                    syn::token::Super::default(),
-                                    syn::token::PathSep::default(),
-                                    restricted.path
-                                );
+                            push_tokens!(
+                                stream,
+                                syn::token::In::default(),
+                                syn::token::Super::default()
+                            );
+                            for segment in rest {
+                                push_tokens!(stream, syn::token::PathSep::default(), segment);
                             }
                         });
                     }
